@@ -220,6 +220,36 @@ def check_cmpops(ctx, R="C08.cmpop"):
                     f"{'+' if is_add else '-'}; |q {'+' if is_add else '-'} c| <= C (and |c {'+' if is_add else '-'} q| <= C) requires {shape}",
                 )
     ctx.floor(R, n_alg, 3, "abs-bound returns")
+    # a matcher that reads a call as f(<one operand>) must refuse calls carrying more operands: the compiler passes the second
+    # operand of `relative heading of X from Y` / `distance from X to Y` as a keyword
+    from ..compiler_ir import emitted_calls
+
+    mu = model.func(RL, "RequirementMatcher.matchUnaryFunction")
+    nodep = mu.args.args[2].arg
+    kw_emitted = set()
+    try:
+        for name, info in emitted_calls(model).items():
+            if any(info.get("keywords", [])) if isinstance(info, dict) else False:
+                kw_emitted.add(name)
+    except Exception:
+        kw_emitted = set()
+    rejects_kw = any(
+        isinstance(i, ast.If)
+        and f"{nodep}.keywords" in unparse(i.test)
+        and any(isinstance(x, ast.Return) and (x.value is None or (isinstance(x.value, ast.Constant) and x.value.value is None)) for x in i.body)
+        for i in walk_local(mu)
+    )
+    rejects_args = any(isinstance(i, ast.If) and f"len({nodep}.args)" in unparse(i.test) and any(isinstance(x, ast.Return) for x in i.body) for i in walk_local(mu))
+    if rejects_kw and rejects_args:
+        ctx.ok(R, mu, "matchUnaryFunction refuses calls with another positional or any keyword operand")
+    else:
+        ctx.finding(
+            R,
+            mu,
+            "matchUnaryFunction accepts calls with further operands",
+            f"RequirementMatcher.matchUnaryFunction no longer returns None for a call with {'keyword arguments' if not rejects_kw else 'more than one positional argument'}: the compiler emits the two-operand forms as "
+            f"`RelativeHeading(X, Y=Y)` / `DistanceFrom(X, Y=Y)`, so `relative heading of X from Y` is read as a bound relative to the ego and feasible scenes are pruned away",
+        )
     # merging keeps the tightest bounds
     mb = model.func(RL, "RequirementMatcher.matchBounds")
     # roles: (lower, upper, target) unpacked from matchBoundsInner(..); (bestLower, bestUpper) unpacked from the table
@@ -448,6 +478,12 @@ def check_polarity(ctx, R="C08.polarity"):
     amt_p = bo.args.args[1].arg
     boxes = [c for c in walk_local(bo) if isinstance(c, ast.Call) and dotted(c.func) == "BoxRegion" and lib.kw(c, "dimensions") is not None]
     for c in boxes:
+        pos_ = lib.kw(c, "position")
+        ptxt = lib.role_text(bo, pos_) if pos_ is not None else ""
+        if "bounds" in ptxt or "bounding_box" in ptxt:
+            ctx.ok(R, c, "the buffered box is centred on the mesh's bounding box")
+        else:
+            ctx.finding(R, c, "buffered box not centred on the bounds", f"_bufferOverapproximate places its box at `{ptxt or '?'}`, not at the centre of the mesh's bounding box: a region whose position is not the centre of its mesh (a view cone, whose position is the camera) gets a shifted box that does not cover it")
         d = ast.parse(lib.role_text(bo, lib.kw(c, "dimensions")), mode="eval").body
         while isinstance(d, ast.Call) and dotted(d.func) in ("list", "tuple", "numpy.array") and d.args:
             d = d.args[0]
